@@ -27,7 +27,7 @@
 (*   (With damping d > 1 a step moves 1/d of the way to the feasible target; from an infeasible start the setpoint        *)
 (*   is feasible only in the limit.  That is the documented meaning of damping_coef, not a violation.)                   *)
 EXTENDS DerDef, TLC
-CONSTANTS AreaSet, PIdx, VIdx, QSeries, QConst, Q0Set, Sats, Damps, Geos, RmoSet, MaxSteps
+CONSTANTS AreaSet, PIdx, VIdx, PCore, VCore, QSeries, QConst, Q0Set, Sats, Damps, Geos, RmoSet, MaxSteps
 VARIABLES cfg, el, prev, k, reg
 vars == <<cfg, el, prev, k, reg>>
 
@@ -48,8 +48,11 @@ SatsOK == {st \in {<<x - (x % 2), x % 2 = 0>> : x \in Sats} : st[1] > 0 \/ st[2]
 GeoOf(a, st) == IF a = "none" /\ st[1] = 0 THEN {1} ELSE Geos
 \* raise_merge_overlap = False is read only where the merged range is empty (AR:68-77): explore it exactly there
 OverlapAtStart(c) == LET m == Merged(c.area, PSeries(PLevel(c.area, c.pi)), VLevel(c.area, c.vi)) IN m[1] > m[2]
+\* operating-point grid: every p level at the core voltages plus every v level at the core powers (a cross; with
+\* PCore = PIdx or VCore = VIdx it is the full grid)
+GridOK(c) == c.vi \in VCore \/ c.pi \in PCore \/ c.area \in {"none", "statcom"}
 Configs == {c \in UNION {[area : {a}, rmo : RmoOf(a), pi : PIdx, vi : VOf(a), qr : QReqs, sat : {st}, d : Damps, geo : GeoOf(a, st)] :
-                         a \in AreaSet, st \in SatsOK} : c.rmo \/ OverlapAtStart(c)}
+                         a \in AreaSet, st \in SatsOK} : (c.rmo \/ OverlapAtStart(c)) /\ GridOK(c)}
 
 \* reg: where the first request of the main element lies relative to the area (coverage of inside / above / below)
 Init == /\ cfg \in Configs /\ el = El0(cfg) /\ prev = El0(cfg) /\ k = 0
@@ -73,9 +76,10 @@ TargetFeasible == ~AnyRaises(cfg, el) => \A e \in 1..Len(el) : Feasible(C, Targe
 \* two points of the disc / of the q interval; the allowance is the integer rounding of the damping division only)
 StepFeasible == k > 0 => \A e \in 1..Len(el) :
     (cfg.d = 1 \/ Feasible(C, prev[e], 0, 0)) => Feasible(C, el[e], RoundSlack(el[e]), 0)
-\* ... and for the settled state (within one unit of the feasible target)
-SettledFeasible == (~AnyRaises(cfg, el) /\ AllSettled(cfg, el)) =>
-    \A e \in 1..Len(el) : Feasible(C, [p |-> PSeries(el[e].p), q |-> el[e].q], RoundSlack(el[e]), 1)
+\* ... and for the state the loop settles in after at least one step (within one unit of the feasible target).  Without a
+\* step nothing was written: "after each step" is vacuous (see the named deviation at DerDef!Settled)
+SettledFeasible == (k > 0 /\ ~AnyRaises(cfg, el) /\ AllSettled(cfg, el)) =>
+    \A e \in 1..Len(el) : Feasible(C, el[e], RoundSlack(el[e]), 1)
 \* saturation only ever reduces: |p|, |q| of the target do not exceed the clipped request  ("reduced to this maximum
 \* apparent power", docstring DC:54-58)
 SaturationReduces == ~AnyRaises(cfg, el) => \A e \in 1..Len(el) :
